@@ -187,6 +187,35 @@ def body(scn):
                             message=None if tr.result is None else tr.result["message"]))
 
 
+RERUN_PROFILE = scenario.profile(maxD=2, coord_classes=("linear", "tight"), noise_modes=("none", "declared"), p_cons=0.0, p_x0_none=0.0,
+                                 extra_budget=(10, 40), max_iter_choices=(None,), tol_mesh_choices=(None,), extra_options=False)
+
+
+def body_rerun(scn):
+    """optimize() called a second time on the same object (a history of API calls): the second run has the same budget."""
+    tr = harness.run(scn)
+    v = []
+    labs = ["rerun"]
+    if tr.result is None or tr.bads is None:
+        return dict(violations=v, labels=labs + ["rerun:first-run-failed"], nontrivial=False, oracle_evals=0, sample=None)
+    n1 = len(tr.calls)
+    mfe = int(scn["options"]["max_fun_evals"])
+    try:
+        r2 = tr.bads.optimize()
+    except Exception as e:  # noqa: BLE001
+        info = harness.exc_info(e)
+        v.append(viol("f:second-optimize", f"second optimize() on the same object raised {info['type']}: {info['msg'][:120]}", site="exception"))
+        r2 = None
+    n2 = len(tr.calls) - n1
+    if r2 is not None:
+        if n2 > mfe:
+            v.append(viol("f:second-optimize", f"second optimize() on the same object made {n2} target calls > max_fun_evals={mfe}", site="budget"))
+        elif int(r2["func_count"]) != n2:
+            v.append(viol("f:second-optimize", f"second optimize() on the same object made {n2} target calls (budget {mfe}) but reports "
+                          f"func_count={r2['func_count']}", site="func-count"))
+    return dict(violations=v, labels=labs, nontrivial=True, oracle_evals=1, sample=dict(runlevel.small(scn), first=n1, second=n2))
+
+
 def body_scripted(case):
     scn, oc = case["scn"], case["script"]
     ss = scripts.make_search_script(case["search"]) if case.get("search") else None
@@ -220,10 +249,12 @@ ADV_EXCLUDE = ()
 
 
 def plan(tier):
-    return [("runs", 16), ("scripted", 16), ("advopts", 16)]
+    return [("runs", 16), ("scripted", 16), ("advopts", 16), ("rerun", 4)]
 
 
 def run_part(res, part, tier, seed, shard, nshards):
+    if part == "rerun":
+        return runlevel.sweep(res, RERUN_PROFILE, 8 if tier == "quick" else 64, seed + 5, shard, nshards, body_rerun)
     if part == "advopts":
         return runlevel.adv_sweep(res, PROFILE, tier, seed, shard, nshards, body, exclude=ADV_EXCLUDE)
     if part == "runs":
@@ -247,13 +278,15 @@ def _simp_scripted(c):
 
 def minimise(part, tier, sig, case, seed):
     mr = 12 if tier == "quick" else 40
+    if part == "rerun":
+        return runlevel.field_minimise(case, sig, body_rerun, max_runs=mr)
     if part in ("runs", "advopts"):
         return runlevel.field_minimise(case, sig, body, max_runs=mr)
     return runlevel.field_minimise(case, sig, body_scripted, max_runs=mr, simplifier=_simp_scripted)
 
 
 def replay(part, case):
-    return runlevel.replay_body(body_scripted if part == "scripted" else body, case)
+    return runlevel.replay_body(body_scripted if part == "scripted" else (body_rerun if part == "rerun" else body), case)
 
 
 def floors(tier):
